@@ -54,7 +54,7 @@ class C35(vlib.Spec):
         return cases
 
     def n_cases(self, tier):
-        return 800 if tier == "quick" else 8000
+        return 1200 if tier == "quick" else 10000
 
     def to_coq(self, case, res):
         if case["k"] == "emb":
